@@ -1,7 +1,9 @@
 //! CNF-side cases on the REAL code: Cnf::eval / is_sat_partial against the propositional definition, and
 //! PartialModel bookkeeping against a reference vector of Option<bool>.
 use crate::CaseResult;
-use rsdd::repr::{Cnf, Literal, PartialModel, VarLabel};
+use rsdd::repr::{Cnf, Literal, PartialModel, VarLabel, WmcParams};
+use rsdd::util::semirings::{FiniteField, Semiring};
+use std::collections::HashMap;
 use serde_json::{json, Value};
 
 fn lits(c: &Value) -> Vec<Vec<Literal>> {
@@ -25,6 +27,48 @@ pub fn run(c: &Value) -> CaseResult {
             let wantp = cls.iter().all(|cl| cl.iter().any(|l| pa[l.label().value() as usize] == Some(l.polarity())));
             let gotp = cnf.is_sat_partial(&m);
             if gotp != wantp { return Err(format!("is_sat_partial = {gotp}, every-clause-has-a-literal-assigned-true = {wantp}")); }
+            Ok(())
+        }
+        "cnf_condition" => {
+            // (F | l) on a == F on a[l.label := l.polarity], for every assignment of the original variables
+            let cls = lits(&c["cnf"]);
+            let cnf = Cnf::new(&cls);
+            let x = c["lit"].as_i64().unwrap_or(1);
+            let lit = Literal::new(VarLabel::new((x.unsigned_abs() - 1) as u64), x > 0);
+            let r = cnf.condition(lit);
+            let nv = c["nvars"].as_u64().unwrap_or(3) as usize;
+            if r.num_vars() > nv { return Err(format!("conditioned formula mentions {} variables, the original {}", r.num_vars(), nv)); }
+            for m in 0..(1u32 << nv) {
+                let a: Vec<bool> = (0..nv).map(|i| (m >> i) & 1 == 1).collect();
+                let mut a2 = a.clone();
+                if (lit.label().value() as usize) < nv { a2[lit.label().value() as usize] = lit.polarity(); }
+                let want = cls.iter().all(|cl| cl.iter().any(|l| a2[l.label().value() as usize] == l.polarity()));
+                let got = r.eval(&a);
+                if got != want { return Err(format!("condition({x}) evaluates to {got} on {:?}; the formula with the literal set evaluates to {want}", a)); }
+            }
+            Ok(())
+        }
+        "cnf_wmc" => {
+            // brute-force count in an exact semiring == sum over satisfying assignments of the product of literal weights
+            const P: u128 = 1_000_000_007;
+            let cls = lits(&c["cnf"]);
+            let cnf = Cnf::new(&cls);
+            let nv = cnf.num_vars();
+            let ws: Vec<(u128, u128)> = c["weights"].as_array().map(|a| a.iter().map(|w| (w[0].as_u64().unwrap_or(1) as u128, w[1].as_u64().unwrap_or(1) as u128)).collect()).unwrap_or_default();
+            let mut hm: HashMap<VarLabel, (FiniteField<P>, FiniteField<P>)> = HashMap::new();
+            for i in 0..nv { let (l, h) = ws.get(i).cloned().unwrap_or((1, 1)); hm.insert(VarLabel::new(i as u64), (FiniteField::new(l), FiniteField::new(h))); }
+            let got = cnf.wmc(&WmcParams::new(hm)).value();
+            let mut want: u128 = 0;
+            for m in 0..(1u32 << nv) {
+                let a: Vec<bool> = (0..nv).map(|i| (m >> i) & 1 == 1).collect();
+                if cls.iter().all(|cl| cl.iter().any(|l| a[l.label().value() as usize] == l.polarity())) {
+                    let mut w: u128 = 1;
+                    for i in 0..nv { let (l, h) = ws.get(i).cloned().unwrap_or((1, 1)); w = w * (if a[i] { h } else { l }) % P; }
+                    want = (want + w) % P;
+                }
+            }
+            let _ = FiniteField::<P>::one();
+            if got != want { return Err(format!("wmc = {got}, the sum over the {} assignments of {} variables is {want}", 1u32 << nv, nv)); }
             Ok(())
         }
         "pm_ops" => {
@@ -68,8 +112,21 @@ pub fn candidates(seed: u64) -> Vec<Value> {
             }
         }
     }
+    for cnf in cnfs.iter() {
+        for l in [1i64, -1, 2, -2, 3, -3] { out.push(json!({"case": "cnf_condition", "cnf": cnf, "lit": l, "nvars": 3})); }
+        out.push(json!({"case": "cnf_wmc", "cnf": cnf, "weights": [[1, 1], [1, 1], [1, 1]]}));
+        out.push(json!({"case": "cnf_wmc", "cnf": cnf, "weights": [[2, 3], [5, 7], [11, 13]]}));
+    }
     let mut s = seed.wrapping_add(4242);
     let mut nx = |n: u64| { s = s.wrapping_mul(6364136223846793005).wrapping_add(1442695040888963407); (s >> 33) % n };
+    for _ in 0..300 {
+        let ncl = nx(5);
+        let cnf: Vec<Vec<i64>> = (0..ncl).map(|_| (0..nx(4)).map(|_| { let v = 1 + nx(4) as i64; if nx(2) == 0 { v } else { -v } }).collect()).collect();
+        let l = 1 + nx(4) as i64;
+        out.push(json!({"case": "cnf_condition", "cnf": cnf, "lit": if nx(2) == 0 { l } else { -l }, "nvars": 4}));
+        let w: Vec<Vec<u64>> = (0..4).map(|_| vec![nx(50), nx(50)]).collect();
+        out.push(json!({"case": "cnf_wmc", "cnf": cnf, "weights": w}));
+    }
     for _ in 0..300 {
         let ops: Vec<Value> = (0..8).map(|_| if nx(3) == 0 { json!(["unset", nx(4)]) } else { json!(["set", nx(4), nx(2) == 0]) }).collect();
         out.push(json!({"case": "pm_ops", "nvars": 4, "ops": ops}));
